@@ -47,6 +47,12 @@ func (c *Ctx) findMapLoops(m *core.Module, fn *ssa.Function) []*mapLoop {
 				l.compute()
 				out = append(out, l)
 			case *ssa.Call:
+				if core.StaticCalleeName(&x.Call) == "(*reflect.MapIter).Next" {
+					// for iter := v.MapRange(); iter.Next(); { ... }: the header is the block that calls Next
+					l := &mapLoop{fn: fn, header: b, mapVal: x.Call.Args[0], kind: "MapRange", pos: x.Pos()}
+					l.compute()
+					out = append(out, l)
+				}
 				if core.StaticCalleeName(&x.Call) == "(reflect.Value).MapKeys" {
 					// find the loop that indexes this slice: header = block with phi index compared to len(slice)
 					if h := sliceLoopHeader(x); h != nil {
@@ -173,9 +179,9 @@ func (c *Ctx) ruleMapOrder(rule string, m *core.Module, fns map[*ssa.Function]bo
 		loops := c.findMapLoops(m, fn)
 		for i, l := range loops {
 			mapDesc := c.stableIn(m, fn, m.ValPath(l.mapVal))
-			if l.kind == "MapKeys" {
+			if l.kind == "MapKeys" || l.kind == "MapRange" {
 				if call, ok := l.mapVal.(*ssa.Call); ok && len(call.Call.Args) > 0 {
-					mapDesc = "MapKeys(" + c.stableIn(m, fn, m.ValPath(call.Call.Args[0])) + ")"
+					mapDesc = l.kind + "(" + c.stableIn(m, fn, m.ValPath(call.Call.Args[0])) + ")"
 				}
 			}
 			base := key(rule, m.Key(fn), "loop#"+string(rune('1'+i))+" over "+mapDesc)
